@@ -4,6 +4,7 @@ import KamalProxy.Driver.Buffer
 import KamalProxy.Driver.Proxy
 import KamalProxy.Driver.Rewrite
 import KamalProxy.Driver.Cli
+import KamalProxy.Driver.Faults
 open KamalProxy
 
 /-- one engine = a state type, an initial state and a line step; `reset` starts a new case -/
@@ -31,4 +32,5 @@ def main (args : List String) : IO UInt32 := do
   | ["proxy"] => loop stdin stdout ({} : Proxy.World) Driver.Proxy.stepLine {}; return 0
   | ["rewrite"] => loop stdin stdout () Driver.Rewrite.stepLine (); return 0
   | ["cli"] => loop stdin stdout () Driver.Cli.stepLine (); return 0
+  | ["faults"] => loop stdin stdout ({} : Driver.Faults.St) Driver.Faults.stepLine {}; return 0
   | _ => IO.eprintln "usage: kpmodel <engine>"; return 2
